@@ -156,11 +156,19 @@ def reps (args : List String) : Option String := do
     some (showList toString (expandReps (fun (i : Nat) => i) (List.zip (List.range rs.length) rs)))
   | _ => none
 
+/-- `tg.traj prefer n` → which noise model (`dev`/`cfg`) and how many trajectories Pulser is asked for. -/
+def traj (args : List String) : Option String := do
+  match args with
+  | [p, n] =>
+    let r := trajectoryRequest (← parseB p) "dev" "cfg" (← n.toNat?)
+    some s!"{r.1} {r.2}"
+  | _ => none
+
 def handlers : List (String × (List String → Option String)) :=
   [("tg.grid", grid rdF), ("tg.gridq", grid rdQ), ("tg.merge", merge rdF), ("tg.mergeq", merge rdQ),
    ("tg.sortset", sset rdF), ("tg.pass1", p1 rdF), ("tg.pass1q", p1 rdQ), ("tg.cfg", cfg rdF),
    ("tg.intimes", intimes rdF), ("tg.call", call rdF), ("tg.callq", call rdQ),
    ("tg.run", run rdF), ("tg.runq", run rdQ), ("tg.chain", chain rdF), ("tg.chainq", chain rdQ), ("tg.valid", valid rdF), ("tg.mid", mid rdF),
-   ("tg.reps", reps)]
+   ("tg.reps", reps), ("tg.traj", traj)]
 
 end EmuVerif.Drv.TimeGrid
